@@ -47,6 +47,7 @@ fn mutate_symbol(t: &mut Tape, s: &str) -> String {
                 let mut v = chars.clone();
                 v[i] = match v[i] {
                     'µ' => 'μ',
+                    'μ' => 'µ',
                     '²' => '2',
                     '³' => '3',
                     '°' => 'º',
